@@ -7,17 +7,129 @@ from props import qcommon as qc
 class Grammar(qc.FullGrammar):
     serial_bottom = True
     thread_kinds = [("async", 5), ("basync", 1), ("sync", 4), ("bsync", 2), ("aaw", 1), ("baaw", 1), ("gasync", 1), ("await", 5), ("work", 1),
-                    ("suspend", 1), ("resume", 1)]
+                    ("suspend", 1), ("resume", 1), ("retarget", 2)]
+
+    def build_graph(self, P, h):
+        n = qc.build_full_graph(P, h, allow_workloop=self.allow_workloop, serial_bottom=True)
+        P.groups = [0]
+        P.pool_done = False
+        P.movable, P.immigrants = [], {}
+        # (a queue whose hierarchy contains a workloop loses DQF_MUTABLE: retargeting it is a documented client crash)
+        if any(d["kind"] == 4 for d in P.queues.values()):
+            return
+        # leaf queues created the legacy way (dispatch_queue_create + dispatch_set_target_queue) may be retargeted while they are busy.
+        # "movable": already in the hierarchy, moved to another queue of it (group unchanged).
+        targeted = {d["target"] for d in P.queues.values()}
+        P.movable = [q for q in P.custom if q > 0 and q not in targeted and not (P.queues[q]["flags"] & 3) and P.queues[q]["kind"] in (0, 1)]
+        # "immigrants": legacy queues that start OUTSIDE the hierarchy (on a global queue, or on a separate serial queue S1) and are moved into it
+        # while busy: items queued behind the retarget belong to the hierarchy, items submitted before it do not
+        b = h[18]
+        k = b % 3
+        s1 = None
+        if k and (b >> 2) & 1:
+            s1 = n
+            P.queue(s1, 0, -1, chain=s1)
+            P.custom.append(s1)
+            P.outside = s1
+        for i in range(k):
+            m = len(P.custom)
+            kind = 1 if (b >> (3 + i)) & 1 and i else 0
+            itarget = s1 if s1 is not None and (b >> (5 + i)) & 1 else [-1, qc.GQ_DEFAULT, qc.GQ_UTILITY][(b >> 6) % 3]
+            P.queue(m, kind, itarget, chain=-1)
+            P.custom.append(m)
+            P.immigrants[m] = None            # settarget op once emitted
+
+    def rank_of(self, P, q):
+        if P.queues[q]["kind"] == 2:
+            return 10 ** 6
+        return 0          # immigrants end up in the hierarchy: for the sync discipline every custom queue counts as part of it from the start
 
     def targets(self, P, env):
         return P.custom + [qc.GQ_DEFAULT]
+
+    def emit_other(self, P, kind, a, b, c, bodies, env):
+        if kind == "retarget":
+            if env.in_item:
+                return None
+            nth = max(1, P.nthreads)
+            imm = [q for q, o in P.immigrants.items() if o is None and q % nth == env.thread]
+            if imm and (a & 1 or not P.movable):
+                q = imm[(a >> 1) % len(imm)]
+                dests = [x for x in P.custom if x not in P.immigrants and x != getattr(P, "outside", None) and x not in P.movable]
+                nt = dests[b % len(dests)]
+                for i in range(1 + (c >> 4) % 2):       # make it busy first
+                    self.emit_submit(P, "async", q, 0, 7 + i, bodies, env)
+                o = P.op(env.ctx, "settarget", a=q, b=nt, thread=env.thread)
+                P.immigrants[q] = o
+                P.features.add("immigrant-retarget-while-busy")
+                for i in range(2 + c % 4):              # queued behind the retarget: these belong to the hierarchy
+                    self.emit_submit(P, "async", q, c >> 2, c + i, bodies, env)
+                self.emit_submit(P, "async", nt, c >> 3, c, bodies, env)
+                return o
+            mine = [q for q in P.movable if q % nth == env.thread]
+            if not mine:
+                return None
+            q = mine[a % len(mine)]
+            dests = [x for x in P.custom if x != q and x not in P.movable and x not in P.immigrants and x != getattr(P, "outside", None)]
+            if not dests:
+                return None
+            nt = dests[b % len(dests)]
+            P.features.add("retarget-while-busy")
+            o = P.op(env.ctx, "settarget", a=q, b=nt, thread=env.thread)
+            # keep it busy: a few more items right behind the retarget
+            for i in range(1 + c % 3):
+                self.emit_submit(P, "async", q, c >> 2, c + i, bodies, env)
+            return o
+        return qc.FullGrammar.emit_other(self, P, kind, a, b, c, bodies, env)
+
+
+def dynamic_groups(prog, hist):
+    """group_of(op) for C03 with runtime retargeting: an item of a queue that is moved between hierarchies belongs to the old one if its submission
+    returned before dispatch_set_target_queue was called, to the new one if it was submitted after that call returned, and to neither
+    (not judged) if the two calls overlapped."""
+    call, ret, start, end, starts, ends = hist.index()
+    moved = {}
+    for o in prog.order:
+        if o.kind == "settarget":
+            moved.setdefault(o.a, []).append(o)
+    dyn = {}
+    for q, ops in moved.items():
+        d = prog.queues[q]
+        it = d.get("itarget", d["target"])
+
+        def grp_via(t):
+            if t is None or t < 0 or prog.queues[t]["kind"] == 2:
+                return ("own", q) if d["kind"] == 0 else None
+            return qc.serial_group(prog, t)
+        gs = [grp_via(it)] + [grp_via(o.b) for o in ops]
+        if len(set(gs)) > 1:
+            dyn[q] = (ops, gs)
+
+    def group_of(o):
+        if o.a not in dyn:
+            return qc.serial_group(prog, o.a)
+        ops, gs = dyn[o.a]
+        if len(ops) != 1:
+            return None
+        st = ops[0]
+        if o.id in ret and st.id in call and ret[o.id] < call[st.id]:
+            return gs[0]
+        if st.id not in call:
+            return gs[0] if o.id in ret else None
+        if o.id in call and st.id in ret and call[o.id] > ret[st.id]:
+            return gs[1]
+        return None
+    return group_of
 
 
 class Check(E3Check):
     prop = "C03"
     rule = ("Hypothesis recipe -> sound program over a generated hierarchy: 1-6 custom queues (serial and concurrent) all chained through target queues "
             "(dispatch_queue_create_with_target, or dispatch_queue_create + dispatch_set_target_queue) onto ONE bottom that is a serial queue or a workloop; "
-            "1-4 threads issue every submission API at every level, dispatch_sync through several levels, awaits, nested submissions, suspend/resume. "
+            "1-4 threads issue every submission API at every level, dispatch_sync through several levels, awaits, nested submissions, suspend/resume, and retarget busy leaf "
+            "queues (legacy dispatch_set_target_queue) onto other queues of the same hierarchy, or move busy legacy queues from outside (a global queue or "
+            "a separate serial queue) into it: items queued behind the retarget are judged as members of the hierarchy, items submitted before it as members "
+            "of the old one, overlapping ones are not judged. "
             "Oracles: no two items tagged with that bottom overlap (one-sided stamps), each serial queue keeps submission order (workloop-direct items are exempt "
             "from order), plain chain record per hierarchy intact. Non-trivial: items of >= 2 distinct queues of the hierarchy were submitted from >= 2 threads and "
             "at least one synchronous submission went to a queue above the bottom while the hierarchy was busy; distinct = distinct program texts.")
@@ -34,7 +146,7 @@ class Check(E3Check):
         vs = qc.crash_or_stuck_verdicts(prog, hist, outcome, rc, output, self.prop)
         if hist is None or outcome == "inconclusive":
             return vs
-        vs += qc.exclusion_verdicts(prog, hist, lambda o: qc.serial_group(prog, o.a), "hierarchy exclusion")
+        vs += qc.exclusion_verdicts(prog, hist, dynamic_groups(prog, hist), "hierarchy exclusion")
         vs += qc.order_verdicts(prog, hist, lambda o: prog.queues[o.a]["kind"] in (0, 3), "serial queue order inside hierarchy")
         if outcome == "completed":
             vs += [v for v in qc.chkfail_verdicts(hist) if v.signature.get("code") in (4, 5)]
